@@ -843,9 +843,33 @@ class _GenerateRenderMethod:
             #       and end control lines, and
             # 3) any control line with no content other than comments
             # 4) the first control block with no content other than comments
+            # the content of a def or namespace tag is written elsewhere
+            hidden = set()
+            for c in children:
+                if isinstance(c, (parsetree.DefTag, parsetree.NamespaceTag)):
+                    stack = list(c.nodes)
+                    while stack:
+                        n = stack.pop()
+                        hidden.add(n)
+                        stack.extend(n.get_children())
+            children = [c for c in children if c not in hidden]
+
+            # nodes that write nothing where they stand
+            def _is_silent(c):
+                return isinstance(
+                    c,
+                    (
+                        parsetree.Comment,
+                        parsetree.DefTag,
+                        parsetree.NamespaceTag,
+                        parsetree.InheritTag,
+                        parsetree.PageTag,
+                    ),
+                ) or (isinstance(c, parsetree.Code) and c.ismodule)
+
             def _search_for_control_line():
                 for c in children:
-                    if isinstance(c, parsetree.Comment):
+                    if _is_silent(c):
                         continue
                     elif isinstance(c, parsetree.ControlLine):
                         return True
@@ -854,7 +878,7 @@ class _GenerateRenderMethod:
             if (
                 not children
                 or all(
-                    isinstance(c, (parsetree.Comment, parsetree.ControlLine))
+                    _is_silent(c) or isinstance(c, parsetree.ControlLine)
                     for c in children
                 )
                 and all(
